@@ -412,17 +412,6 @@ def _normalize_index(i: int, dim_size: int) -> int:
 
 
 def _normalize_slice(s: slice, dim_size: int) -> slice:
-    start = s.start
-    if start is None:
-        start = 0
-    elif start < 0:
-        start = dim_size + start
-    stop = s.stop
-    if stop is None:
-        stop = dim_size
-    elif stop < 0:
-        stop = dim_size + stop
-    step = s.step
-    if step is None:
-        step = 1
+    # slice.indices clamps start/stop to the dimension (as indexing the mean does) and resolves None/negative values
+    start, stop, step = s.indices(dim_size)
     return slice(start, stop, step)
